@@ -22,6 +22,11 @@ func init() {
 	engine.RegisterSignature("c16-slice-setlen-unaddressable", sigSetLen)
 	engine.RegisterSignature("c16-delete-non-index-stack-overflow", sigLethal)
 	engine.RegisterSignature("c16-passback-rebuilt-elementwise", sigPassbackCopy)
+	engine.RegisterSignature("c16-accessor-element-skipped", func(m *engine.Mismatch) bool {
+		// the array argument has an accessor element; the callee received exactly
+		// the array with that element left at its zero value (as for a hole)
+		return m.Aux["arg"] == "[1,get 9,3]" && m.Aux["plain"] == "ok" && m.Aux["try"] == "ok" && m.Aux["twin"] == "match"
+	})
 	engine.RegisterSignature("c16-map-method-name-write-dropped", sigMethodNameWrite)
 	engine.RegisterSignature("c16-store-negative-fraction-truncated", sigNegFraction)
 	engine.RegisterSignature("c16-store-2p63-2p64-wraps", sigStoreWraps)
